@@ -122,14 +122,35 @@ STR_ALPHA = ["a", "b", "Z", "0", "7", " ", "#", "#1", "#23", "(", ")", ";", "''"
 PAREN_ALPHA = ["(", ")", "(", ")", ";", "#", "#2", "''", "a", " ", "((", "))", ")(", "(;", "')'"[1:2], ","]
 
 
+BS = "\\"
+# control directives and escapes of the Part 21 string grammar (body items; cf. vlib/p21_gen_rw.string_grid)
+DIRECTIVES = [BS + BS, BS + "S" + BS + "'", BS + "S" + BS + BS, BS + "S" + BS + "D", BS + "PA" + BS,
+              BS + "X" + BS + "27", BS + "X" + BS + "5C", BS + "X2" + BS + "0027" + BS + "X0" + BS,
+              BS + "X4" + BS + "00000027" + BS + "X0" + BS]
+GRID_ITEMS = ["a", "''"] + DIRECTIVES + [";", ")", "(", "#3", "/*"]
+
+
+def string_grid():
+    """string bodies: every item kind alone, at the start, at the end, and next to every other item kind"""
+    out = [""]
+    for d in GRID_ITEMS:
+        out += [d, "x" + d, d + "x"]
+    for d1 in GRID_ITEMS:
+        for d2 in GRID_ITEMS:
+            out.append(d1 + d2)
+    return out
+
+
 def rand_string(rng, plain=False, parens=False):
     """parens=True: mostly `(` `)` `;` `#` `''`, balanced or not (used inside the parts of complex instances, where a
     reader that counts parentheses by hand instead of skipping string literals goes wrong)"""
     if plain:
         return "".join(rng.choice("abcxyz") for _ in range(rng.randint(0, 4)))
     if parens:
-        return "".join(rng.choice(PAREN_ALPHA) for _ in range(rng.randint(1, 4)))
-    return "".join(rng.choice(STR_ALPHA) for _ in range(rng.randint(0, 7)))
+        alpha = PAREN_ALPHA + (DIRECTIVES if rng.random() < 0.5 else [])
+        return "".join(rng.choice(alpha) for _ in range(rng.randint(1, 4)))
+    alpha = STR_ALPHA + (DIRECTIVES if rng.random() < 0.5 else [])
+    return "".join(rng.choice(alpha) for _ in range(rng.randint(0, 7)))
 
 
 def concrete_choices(s):
